@@ -193,10 +193,12 @@ def _validate_chunk(run, items):
     if not clean and not (mm and int(mm.group(1)) == len(fails) and fails):
         run.log(out[-5000:])
         raise Inconclusive("trace validation with NamingTrace failed without a usable verdict (rc=%d)" % rc)
-    rejections = {}
+    rejections, firsts = {}, {}
+    for i, (t, _) in enumerate(items):
+        firsts.setdefault(t, i)
     for k, failed in fails:
         tid, line = items[k - 1]
-        first = next(i for i, (t, _) in enumerate(items) if t == tid)
+        first = firsts[tid]
         r = rejections.setdefault(tid, {"trace": tid, "failed": [], "events": []})
         r["failed"] += [f if isinstance(f, str) else ":".join(f) for f in failed]
         r["events"].append({"rejected_event_index": k - 1 - first, "rejected_event": json.loads(line), "failed": failed})
@@ -375,8 +377,8 @@ def c04(run, args):
     run.cov["exhaustive"] = True
     # (3) end-to-end sample: every address with a short local part, a seed-chosen share of the longer ones
     full_e2e = 2 if quick else 3
-    share = 0.10 if quick else 0.20
-    spellings = 1 if quick else 2
+    share = 0.15 if quick else 0.30
+    spellings = 2 if quick else 3
     pick = random.Random("%d/e2e" % run.seed)
     chosen = {i for i, a in enumerate(abstract) if len(a["local"]) <= full_e2e or pick.random() < share}
     beh = behaviours_for(run, abstract, MODES, lambda i, a, m, k: k == 0 and i in chosen, spellings)
@@ -391,7 +393,7 @@ def c04(run, args):
                        "evaluations = (abstract address, spelling, mode) triples replayed (%d spelling(s) per abstract address); non-trivial = the real RCPT path accepted the address, so the relations actually constrain the outputs; "
                        "distinct = distinct (mode, abstract address)" % (maxlen, full_e2e, int(share * 100), spellings))
     run.assumptions += ["addresses the real code refuses at RCPT TO are outside the property (recorded, not judged)",
-                        "one (quick) or two (thorough) concrete spellings per abstract address and seed; a defect that depends on a character the token classes do not separate can be missed",
+                        "two (quick) or three (thorough) concrete spellings per abstract address and seed; a defect that depends on a character the token classes do not separate can be missed",
                         "a '+' inside a quoted pair / quoted string is not used to build '+ext' variants (whether it separates an extension is left open)",
                         "read interfaces asked end to end: REST list, REST show, web UI show; the string is percent-encoded as one path segment (url.PathEscape); POP3 takes the mailbox name verbatim and is not asked",
                         "end to end on the memory store, default accept/store policy"]
